@@ -37,6 +37,10 @@ def int64 (x : F64) : Int := x.trunc
 
 /-! ## errors: `nil` is `none`; an error is represented by its format string (arguments are not part of the decision logic) -/
 abbrev Err := Option Str
+/-- `err.Error()` of a non-nil error -/
+def errText (e : Err) : Str := e.getD []
+/-- `d.Seconds()` as far as `int64(…)` observes it: whole seconds, truncated toward zero -/
+def durSeconds (d : Duration) : F64 := ⟨Int.tdiv d 1000000000⟩
 
 /-! ## `interface{}` holding a decoded JSON value -/
 inductive Any where
@@ -95,6 +99,17 @@ def split (s sep : Str) : List Str :=
   | _ => [s]          -- (only one-character separators occur in the translated functions; `Oidc.Generated.Code` says which)
 def idx (xs : List Str) (i : Int) : Str := xs.getD i.toNat []
 
+/-- `strings.Contains` -/
+def contains (s sub : Str) : Bool :=
+  match s with
+  | [] => sub.isEmpty
+  | c :: t => sub.isPrefixOf (c :: t) || contains t sub
+
+/-- `s[:n]` and `s[n:]`: Go panics unless `0 ≤ n ≤ len(s)`; the translated functions use them under that guard, and the
+    theorems about them are stated under it (outside it these total versions clamp) -/
+def sliceTo (s : Str) (n : Int) : Str := s.take n.toNat
+def sliceFrom (s : Str) (n : Int) : Str := s.drop n.toNat
+
 /-! ## net/http: what the translated functions read of a request -/
 structure Request where
   /-- `req.Header.Get(name)` for a name in canonical form: the first value, `""` when absent -/
@@ -106,14 +121,30 @@ structure Request where
 def headerGet (r : Request) (name : Str) : Str := r.header name
 
 /-! ## the fields of the middleware instance and of a parsed token that the translated functions read -/
+structure JWT where
+  Header : Obj
+  Claims : Obj
+
+/-- the instance: the fields the translated functions read, and the functions of /repo they call that are not themselves
+    translated (`tools/go2lean` lists them as `externals`): these are parameters the theorems quantify over -/
 structure Inst where
   excludedURLs : Set
   allowedUserDomains : Set
   allowedRolesAndGroups : Set
+  refreshGracePeriod : Duration
+  /-- `t.extractClaimsFunc(token)`: claims of a token string, or an error -/
+  extractClaimsFunc : Str → Obj × Err
+  /-- `parseJWT(token)` -/
+  parseJWT : Str → JWT × Err
+  /-- `t.VerifyJWTSignatureAndClaims(jwt, token)` at the instant of the call -/
+  VerifyJWTSignatureAndClaims : JWT → Str → Err
 
-structure JWT where
-  Header : Obj
-  Claims : Obj
+/-- `*SessionData` as the translated functions read it: the results of its getters -/
+structure Sess where
+  GetAuthenticated : Bool
+  GetAccessToken : Str
+  GetRefreshToken : Str
+  GetEmail : Str
 
 /-! ## `for … range` with `break` and `return` -/
 inductive Ctl (σ ρ : Type) where
@@ -129,6 +160,18 @@ def forRange {α σ ρ : Type} (xs : List α) (s : σ) (f : α → σ → Ctl σ
     | .next s' => forRange rest s' f
     | .brk s' => .next s'
     | .ret r => .ret r
+
+/-- `for cond { body }`: runs at most `fuel` iterations; `none` when the fuel runs out (the theorems about a translated
+    function with such a loop say for which fuel it does not, i.e. that the loop terminates) -/
+def forWhile {σ ρ : Type} : Nat → σ → (σ → Bool) → (σ → Ctl σ ρ) → Option (Ctl σ ρ)
+  | 0, _, _, _ => none
+  | n + 1, s, c, b =>
+    if c s then
+      match b s with
+      | .next s' => forWhile n s' c b
+      | .brk s' => some (.next s')
+      | .ret r => some (.ret r)
+    else some (.next s)
 
 /-- marker the translator emits for a function it cannot translate (any statement about it then fails to type-check) -/
 structure Untranslatable where
